@@ -27,14 +27,32 @@ def output_digest(case, value, full, labels):
     return hashlib.sha256(body.encode()).hexdigest()[:20]
 
 
+ENTROPY_CALLS = [0]
+
+
 def run_real(case, full, seed):
-    """One call with the real generators.  Returns (digest, state digests)."""
+    """One call with the real generators.  Returns (digest, state digests).
+    While the simulator runs, the OS entropy source is tripwired: any call to
+    os.urandom (random.SystemRandom, secrets, numpy.random.default_rng() and
+    SeedSequence() all end there) is counted in ENTROPY_CALLS[0]."""
+    import os
     import numpy as np
     from . import simcases
     from .seam import RealSim
     random.seed(seed)
     np.random.seed(seed % (2 ** 32))
-    res, G, labels, _ = simcases.call(case, full, sim=RealSim())
+    real_u, real_ru = os.urandom, random._urandom
+
+    def trip(n):
+        ENTROPY_CALLS[0] += 1
+        return real_u(n)
+    os.urandom = trip
+    random._urandom = trip
+    try:
+        res, G, labels, _ = simcases.call(case, full, sim=RealSim())
+    finally:
+        os.urandom = real_u
+        random._urandom = real_ru
     st = hashlib.sha256(repr(random.getstate()).encode()).hexdigest()[:12] + \
         hashlib.sha256(repr([x.tolist() if hasattr(x, "tolist") else x for x in np.random.get_state()]).encode()).hexdigest()[:12]
     if res.status == "exc":
